@@ -148,6 +148,34 @@ Proof.
     + apply Hcont. right; auto.
 Qed.
 
+(** an accepted line: none of the SHORT_N = 7 interior samples is farther than the accuracy from the chord *)
+Lemma try_fit_line_loop_samples : forall n chord acc2 start dt i m r,
+  try_fit_line_loop spd chord acc2 start dt i n m = Some r ->
+  forall j, (j < n)%nat ->
+    fltb acc2 (line_nearest_dsq chord (spd (fadd start (fmul (fofZ (i + Z.of_nat j + 1)) dt)))) = false.
+Proof.
+  induction n as [|n IH]; intros chord acc2 start dt i m r E j Hj; [lia|].
+  cbn [try_fit_line_loop] in E.
+  destruct (fltb acc2 (line_nearest_dsq chord (spd (fadd start (fmul (fofZ (i + 1)) dt))))) eqn:El; [discriminate|].
+  destruct j as [|j].
+  - cbn [Z.of_nat]. rewrite Z.add_0_r. exact El.
+  - specialize (IH _ _ _ _ _ _ _ E j ltac:(lia)).
+    replace (i + Z.of_nat (S j) + 1)%Z with (i + 1 + Z.of_nat j + 1)%Z by lia. exact IH.
+Qed.
+
+Lemma try_fit_line_samples s e a b c err :
+  try_fit_line spd acc s e a b = Some (c, err) ->
+  c = line_cubic a b /\
+  forall j, (j < 7)%nat ->
+    fltb (fmul acc acc)
+         (line_nearest_dsq (mkLine a b) (spd (fadd s (fmul (fofZ (Z.of_nat j + 1)) (fdiv (fsub e s) (fofZ 8)))))) = false.
+Proof.
+  intros E. split; [eapply try_fit_line_cubic; eauto|].
+  unfold try_fit_line in E.
+  destruct (try_fit_line_loop spd (mkLine a b) (fmul acc acc) s (fdiv (fsub e s) (fofZ 8)) 0 7 f0) as [m|] eqn:El; [|discriminate].
+  intros j Hj. pose proof (@try_fit_line_loop_samples _ _ _ _ _ _ _ _ El j Hj) as G. rewrite Z.add_0_l in G. exact G.
+Qed.
+
 (** shape of the emitted path *)
 Lemma path_is_empty_snoc_curve (p : list (PathEl T)) a b c : path_is_empty (p ++ [CurveTo a b c]) = false.
 Proof. unfold path_is_empty. rewrite forallb_app. cbn. apply andb_false_r. Qed.
@@ -270,6 +298,20 @@ Proof.
   split; [exact E0|]. rewrite E3, <- Hc. eapply IH; eauto.
 Qed.
 
+Lemma emit_segments l ls a b :
+  oracle_keeps_endpoints -> (forall t, sp t = ep t) ->
+  Forall leaf_wf (l :: ls) -> chain a (map leaf_range (l :: ls)) b ->
+  segments (emit_leaves [] (l :: ls)) = Some (map (fun l => SegCubic (leaf_cubic l)) (l :: ls)).
+Proof.
+  intros Ho Hc W C. rewrite emit_empty.
+  unfold segments. cbn [segs_from seg_step el_end].
+  assert (L := leaves_linked Ho Hc _ _ W C).
+  pose proof (segs_from_curves (map leaf_cubic (l :: ls)) (c0 (leaf_cubic l)) (c0 (leaf_cubic l))) as S.
+  rewrite !map_map in S. unfold leaf_curve. rewrite S.
+  - reflexivity.
+  - cbn [map linked] in *. destruct L as [_ L]. split; [reflexivity| exact L].
+Qed.
+
 Lemma fit_segments fuel out :
   oracle_keeps_endpoints -> (forall t, sp t = ep t) ->
   fit_to_bezpath spt spd bc fc acc fuel = Some out ->
@@ -278,12 +320,7 @@ Lemma fit_segments fuel out :
 Proof.
   intros Ho Hc E. destruct (fit_rec_chain_leaves _ E) as (l & ls & C & W & ->).
   exists (l :: ls). split; [discriminate|]. split; [exact C|]. split; [exact W|].
-  unfold segments. cbn [segs_from seg_step el_end].
-  assert (L := leaves_linked Ho Hc _ _ W C).
-  pose proof (segs_from_curves (map leaf_cubic (l :: ls)) (c0 (leaf_cubic l)) (c0 (leaf_cubic l))) as S.
-  rewrite !map_map in S. unfold leaf_curve. rewrite S.
-  - reflexivity.
-  - cbn [map linked] in *. destruct L as [_ L]. split; [reflexivity| exact L].
+  rewrite <- emit_empty. eapply emit_segments; eauto.
 Qed.
 
 End FitGeneric.
@@ -406,35 +443,799 @@ Proof.
   induction body as [|el body IH]; intros Hd R nm cur last R' nm' cur' Hs.
   - cbn in *. inversion Hs; subst. reflexivity.
   - cbn [forallb] in Hd. apply andb_true_iff in Hd. destruct Hd as [Hel Hd].
-    assert (Hseg : forall s, 
+    assert (Hseg : forall s,
        spec_segs R nm cur (s :: body_segs (seg_end s) body) = (R', nm', cur') ->
-       match simplify_loop fitter thresh
-         (let st := match last_seg_of cur with
-                    | Some l => if corner l s then ss_flush fitter (mkSS (run_queue cur) R nm) else mkSS (run_queue cur) R nm
-                    | None => mkSS (run_queue cur) R nm
-                    end in
-          mkSL (Some (seg_end s)) (Some s) (ss_add_seg st s)) body with
-       | Some lp => Some lp | None => None end
+       simplify_loop fitter thresh
+         (mkSL (Some (seg_end s)) (Some s)
+            (ss_add_seg match last_seg_of cur with
+                        | Some l => if corner l s then ss_flush fitter (mkSS (run_queue cur) R nm) else mkSS (run_queue cur) R nm
+                        | None => mkSS (run_queue cur) R nm
+                        end s)) body
        = Some (mk_lp R' nm' cur' (Some (body_last (seg_end s) body)))).
-    { intros s Hs'. rewrite (step_seg_mk R nm cur s).
+    { intros s Hs'. pose proof (step_seg_mk R nm cur s) as E. cbv zeta in E. rewrite E. clear E.
       cbn [spec_segs] in Hs'.
       destruct (last_seg_of cur) as [l|].
-      - destruct (corner l s); rewrite (IH Hd _ _ _ _ _ _ _ Hs'); reflexivity.
-      - rewrite (IH Hd _ _ _ _ _ _ _ Hs'); reflexivity. }
-    destruct el as [p|p|p1 p2|p1 p2 p3|]; try discriminate; cbn [simplify_loop simplify_step body_segs body_last];
-      unfold mk_lp at 1; cbn [sl_last_pt sl_last_seg sl_state].
+      - destruct (corner l s); apply IH; assumption.
+      - apply IH; assumption. }
+    destruct el as [p|p|p1 p2|p1 p2 p3|]; try discriminate; cbn [body_segs] in Hs;
+      cbn [simplify_loop simplify_step body_segs body_last];
+      unfold mk_lp; cbn [sl_last_pt sl_last_seg sl_state].
     + destruct (pt_eq last p) eqn:E.
       * fold (mk_lp R nm cur (Some last)). apply IH; assumption.
-      * specialize (Hseg (SegLine (mkLine last p)) Hs). cbn [seg_end l1] in Hseg.
-        destruct (simplify_loop _ _ _ body); [exact Hseg|discriminate].
+      * exact (Hseg (SegLine (mkLine last p)) Hs).
     + destruct (pt_eq last p1 && pt_eq last p2)%bool eqn:E.
       * fold (mk_lp R nm cur (Some last)). apply IH; assumption.
-      * specialize (Hseg (SegQuad (mkQuad last p1 p2)) Hs). cbn [seg_end q2] in Hseg.
-        destruct (simplify_loop _ _ _ body); [exact Hseg|discriminate].
+      * exact (Hseg (SegQuad (mkQuad last p1 p2)) Hs).
     + destruct (pt_eq last p1 && pt_eq last p2 && pt_eq last p3)%bool eqn:E.
       * fold (mk_lp R nm cur (Some last)). apply IH; assumption.
-      * specialize (Hseg (SegCubic (mkCubic last p1 p2 p3)) Hs). cbn [seg_end c3] in Hseg.
-        destruct (simplify_loop _ _ _ body); [exact Hseg|discriminate].
+      * exact (Hseg (SegCubic (mkCubic last p1 p2 p3)) Hs).
+Qed.
+
+Definition closing (b : bool) : list (PathEl T) := if b then [ClosePath] else [].
+
+(** the output for one well-formed sub-path *)
+Definition sub_out (s : Subpath T) : list (PathEl T) :=
+  let '(R, nm, cur) := spec_segs [] true [] (sub_segs s) in
+  R ++ emit_run nm cur ++ closing (sp_closed s).
+
+Lemma spec_segs_prefix : forall segs R nm cur,
+  spec_segs R nm cur segs =
+  let '(R', nm', cur') := spec_segs [] nm cur segs in (R ++ R', nm', cur').
+Proof.
+  induction segs as [|s r IH]; intros R nm cur; cbn [spec_segs].
+  - rewrite app_nil_r; reflexivity.
+  - destruct (last_seg_of cur) as [l|].
+    + destruct (corner l s).
+      * rewrite IH. rewrite (IH ([] ++ emit_run nm cur)).
+        destruct (spec_segs [] false [s] r) as [[R' nm'] cur']. cbn. rewrite app_assoc. reflexivity.
+      * apply IH.
+    + apply IH.
+Qed.
+
+Lemma loop_app : forall a b lp,
+  simplify_loop fitter thresh lp (a ++ b) =
+  match simplify_loop fitter thresh lp a with
+  | Some lp' => simplify_loop fitter thresh lp' b
+  | None => None
+  end.
+Proof.
+  induction a as [|x a IH]; intros b lp; cbn [app simplify_loop]; [reflexivity|].
+  destruct (simplify_step fitter thresh lp x); [apply IH|reflexivity].
+Qed.
+
+Lemma emit_run_nil nm : emit_run nm [] = [].
+Proof. reflexivity. Qed.
+
+Lemma step_moveto R nm cur last p :
+  simplify_step fitter thresh (mk_lp R nm cur last) (MoveTo p) = Some (mk_lp (R ++ emit_run nm cur) true [] (Some p)).
+Proof.
+  cbn [simplify_step]. unfold mk_lp at 1 2. cbn [sl_state]. rewrite flush_mk.
+  destruct cur; cbn [ss_queue ss_result emit_run]; [rewrite app_nil_r|]; reflexivity.
+Qed.
+
+Lemma step_closepath R nm cur last :
+  simplify_step fitter thresh (mk_lp R nm cur last) ClosePath =
+  Some (mk_lp ((R ++ emit_run nm cur) ++ [ClosePath]) true [] last).
+Proof.
+  cbn [simplify_step]. unfold mk_lp at 1 2 3. cbn [sl_state sl_last_pt]. rewrite flush_mk.
+  destruct cur; cbn [ss_queue ss_result emit_run]; [rewrite app_nil_r|]; reflexivity.
+Qed.
+
+Definition sub_ok (s : Subpath T) : Prop := forallb (@is_draw T) (sp_body s) = true.
+
+Lemma sub_sim s : sub_ok s -> forall R nm cur last,
+  exists R2 nm2 cur2 last2,
+    simplify_loop fitter thresh (mk_lp R nm cur last) (sub_els s) = Some (mk_lp R2 nm2 cur2 last2) /\
+    R2 ++ emit_run nm2 cur2 = (R ++ emit_run nm cur) ++ sub_out s.
+Proof.
+  intros Hok R nm cur last. unfold sub_els. cbn [simplify_loop]. rewrite step_moveto.
+  rewrite loop_app.
+  destruct (spec_segs (R ++ emit_run nm cur) true [] (sub_segs s)) as [[R1 nm1] cur1] eqn:E1.
+  rewrite (body_sim _ Hok _ _ _ _ E1).
+  rewrite spec_segs_prefix in E1. unfold sub_out.
+  destruct (spec_segs [] true [] (sub_segs s)) as [[R' nm'] cur']. inversion E1; subst; clear E1.
+  destruct (sp_closed s); cbn [closing simplify_loop].
+  - rewrite step_closepath. do 4 eexists. split; [reflexivity|].
+    cbn [emit_run]. rewrite app_nil_r. rewrite <- !app_assoc. reflexivity.
+  - do 4 eexists. split; [reflexivity|]. rewrite app_nil_r, <- !app_assoc. reflexivity.
+Qed.
+
+Lemma subs_sim : forall sps, Forall sub_ok sps -> forall R nm cur last,
+  exists R2 nm2 cur2 last2,
+    simplify_loop fitter thresh (mk_lp R nm cur last) (flat_map (@sub_els T) sps) = Some (mk_lp R2 nm2 cur2 last2) /\
+    R2 ++ emit_run nm2 cur2 = (R ++ emit_run nm cur) ++ flat_map sub_out sps.
+Proof.
+  induction sps as [|s sps IH]; intros Hok R nm cur last.
+  - do 4 eexists. split; [reflexivity|]. cbn. rewrite app_nil_r. reflexivity.
+  - inversion Hok; subst. cbn [flat_map]. rewrite loop_app.
+    destruct (sub_sim H2 R nm cur last) as (R1 & nm1 & cur1 & last1 & -> & E1).
+    destruct (IH H3 R1 nm1 cur1 last1) as (R2 & nm2 & cur2 & last2 & -> & E2).
+    do 4 eexists. split; [reflexivity|]. rewrite E2, E1, <- app_assoc. reflexivity.
+Qed.
+
+(** simplify_bezpath on a list of well-formed sub-paths is the concatenation of the per-sub-path outputs *)
+Lemma simplify_spec sps : Forall sub_ok sps ->
+  simplify_bezpath fitter thresh (flat_map (@sub_els T) sps) = Some (flat_map sub_out sps).
+Proof.
+  intros Hok. unfold simplify_bezpath.
+  change (mkSL None None (mkSS [] [] false)) with (mk_lp [] false [] None).
+  destruct (subs_sim Hok [] false [] None) as (R2 & nm2 & cur2 & last2 & -> & E).
+  unfold mk_lp. cbn [sl_state]. rewrite flush_mk. cbn in E.
+  destruct cur2; cbn [ss_result]; [rewrite emit_run_nil, app_nil_r in E|]; rewrite E; reflexivity.
+Qed.
+
+(** ** what the output looks like when the fitter has the shape fit_rec_chain gives it *)
+Definition fitter_chain : Prop :=
+  forall p0 body, body <> [] -> forallb (@is_draw T) body = true ->
+    exists cs, cs <> [] /\ fitter (MoveTo p0 :: body) = MoveTo p0 :: cs /\
+               forallb (@is_curveto T) cs = true /\ last_end cs = last_end body.
+
+Lemma curveto_draw (cs : list (PathEl T)) : forallb (@is_curveto T) cs = true -> forallb (@is_draw T) cs = true.
+Proof.
+  induction cs as [|c cs IH]; cbn; [reflexivity|]. intros E. apply andb_true_iff in E. destruct E as [E1 E2].
+  rewrite (IH E2). destruct c; try discriminate; reflexivity.
+Qed.
+
+Lemma last_end_map_seg_el (run : list (PathSeg T)) :
+  last_end (map (@seg_el T) run) = option_map (fun x => seg_end x) (last_seg_of run).
+Proof.
+  unfold last_end, last_seg_of. rewrite <- map_rev. destruct (rev run) as [|x r]; [reflexivity|].
+  cbn. destruct x; reflexivity.
+Qed.
+
+Lemma last_end_app (a b : list (PathEl T)) : b <> [] -> last_end (a ++ b) = last_end b.
+Proof.
+  intros Hb. unfold last_end. rewrite rev_app_distr. destruct (rev b) eqn:E; [|reflexivity].
+  apply (f_equal (@rev _)) in E. rewrite rev_involutive in E. cbn in E. congruence.
+Qed.
+
+Lemma last_seg_of_app (a b : list (PathSeg T)) : b <> [] -> last_seg_of (a ++ b) = last_seg_of b.
+Proof.
+  intros Hb. unfold last_seg_of. rewrite rev_app_distr. destruct (rev b) eqn:E; [|reflexivity].
+  apply (f_equal (@rev _)) in E. rewrite rev_involutive in E. cbn in E. congruence.
+Qed.
+
+Lemma forallb_map_seg_el (run : list (PathSeg T)) : forallb (@is_draw T) (map (@seg_el T) run) = true.
+Proof. induction run as [|x r IH]; cbn; [reflexivity|]. rewrite seg_el_draw, IH. reflexivity. Qed.
+
+Lemma emit_run_shape : fitter_chain -> forall nm s r,
+  exists els, els <> [] /\ forallb (@is_draw T) els = true /\
+    last_end els = option_map (fun x => seg_end x) (last_seg_of (s :: r)) /\
+    emit_run nm (s :: r) = (if nm then [MoveTo (seg_start s)] else []) ++ els.
+Proof.
+  intros Hf nm s r. unfold emit_run. cbn [run_queue length].
+  destruct (Nat.eqb (S (length (map (@seg_el T) (s :: r)))) 2) eqn:E.
+  - exists (map (@seg_el T) (s :: r)). split; [discriminate|]. split; [apply forallb_map_seg_el|].
+    split; [apply last_end_map_seg_el|]. destruct nm; reflexivity.
+  - destruct (Hf (seg_start s) (map (@seg_el T) (s :: r))) as (cs & Nc & Ef & Dc & Lc).
+    + discriminate. + apply forallb_map_seg_el.
+    + exists cs. split; [exact Nc|]. split; [apply curveto_draw; exact Dc|].
+      split; [rewrite Lc; apply last_end_map_seg_el|]. rewrite Ef. destruct nm; reflexivity.
+Qed.
+
+(** corner vertices, threading the previous segment *)
+Fixpoint cv (prev : option (PathSeg T)) (segs : list (PathSeg T)) : list (Point T) :=
+  match segs with
+  | [] => []
+  | s :: r => (match prev with
+               | Some l => if corner l s then [seg_end l] else []
+               | None => []
+               end) ++ cv (Some s) r
+  end.
+
+Lemma cv_corner_vertices : forall r a, cv (Some a) r = corner_vertices corner (a :: r).
+Proof. induction r as [|b r IH]; intros a; [reflexivity|]. cbn [cv corner_vertices]. rewrite IH. reflexivity. Qed.
+
+Lemma cv_none segs : cv None segs = corner_vertices corner segs.
+Proof. destruct segs as [|a r]; [reflexivity|]. cbn [cv app]. apply cv_corner_vertices. Qed.
+
+Lemma last_end_in_vertices (els : list (PathEl T)) v : last_end els = Some v -> In v (vertices els).
+Proof.
+  unfold last_end, vertices. intros E. destruct (rev els) as [|x r] eqn:Er; [discriminate|].
+  apply in_flat_map. exists x. split.
+  - apply in_rev. rewrite Er. left; reflexivity.
+  - rewrite E. left; reflexivity.
+Qed.
+
+Lemma vertices_app (a b : list (PathEl T)) : vertices (a ++ b) = vertices a ++ vertices b.
+Proof. unfold vertices. apply flat_map_app. Qed.
+
+Lemma spec_out_shape : fitter_chain -> forall segs nm cur d, cur ++ segs <> [] ->
+  forall R nm' cur', spec_segs [] nm cur segs = (R, nm', cur') ->
+  exists els,
+    R ++ emit_run nm' cur' = (if nm then [MoveTo (seg_start (hd d (cur ++ segs)))] else []) ++ els /\
+    els <> [] /\ forallb (@is_draw T) els = true /\
+    last_end els = option_map (fun x => seg_end x) (last_seg_of (cur ++ segs)) /\
+    (forall v, In v (cv (last_seg_of cur) segs) -> In v (vertices els)).
+Proof.
+  intros Hf. induction segs as [|s r IH]; intros nm cur d Hne R nm' cur' Hs.
+  - cbn in Hs. inversion Hs; subst. rewrite app_nil_r in *. destruct cur' as [|a c]; [congruence|].
+    destruct (emit_run_shape Hf nm' a c) as (els & N & D & L & E).
+    exists els. cbn [app hd]. repeat split; auto. cbn. intros v [].
+  - cbn [spec_segs] in Hs.
+    assert (Hkeep : spec_segs [] nm (cur ++ [s]) r = (R, nm', cur') ->
+                    (forall v, In v (cv (last_seg_of cur) (s :: r)) -> In v (cv (Some s) r)) ->
+                    exists els,
+      R ++ emit_run nm' cur' = (if nm then [MoveTo (seg_start (hd d (cur ++ s :: r)))] else []) ++ els /\
+      els <> [] /\ forallb (@is_draw T) els = true /\
+      last_end els = option_map (fun x => seg_end x) (last_seg_of (cur ++ s :: r)) /\
+      (forall v, In v (cv (last_seg_of cur) (s :: r)) -> In v (vertices els))).
+    { intros Hs' Hcv. destruct (IH nm (cur ++ [s]) d) with (R := R) (nm' := nm') (cur' := cur') as (els & E & N & D & L & V).
+      - destruct cur; discriminate.
+      - exact Hs'.
+      - rewrite <- app_assoc in E, L. cbn [app] in E, L. exists els. repeat split; auto.
+        intros v Hv. apply V. rewrite last_seg_of_snoc. apply Hcv; exact Hv. }
+    destruct (last_seg_of cur) as [l|] eqn:El.
+    + destruct (corner l s) eqn:Ec.
+      * rewrite spec_segs_prefix in Hs.
+        destruct (spec_segs [] false [s] r) as [[R2 nm2] cur2] eqn:E2. inversion Hs; subst; clear Hs.
+        destruct (IH false [s] d) with (R := R2) (nm' := nm') (cur' := cur') as (els2 & Eq2 & N2 & D2 & L2 & V2);
+          [discriminate|exact E2|].
+        destruct cur as [|a c]; [discriminate|].
+        destruct (emit_run_shape Hf nm a c) as (els1 & N1 & D1 & L1 & E1).
+        exists (els1 ++ els2). cbn [app hd] in *. rewrite E1, <- !app_assoc. rewrite Eq2. cbn [app].
+        split; [reflexivity|]. split; [destruct els1; [congruence|discriminate]|].
+        split; [rewrite forallb_app, D1, D2; reflexivity|].
+        split.
+        -- rewrite last_end_app by exact N2. rewrite L2.
+           change (a :: c ++ s :: r) with ((a :: c) ++ (s :: r)). rewrite last_seg_of_app by discriminate. reflexivity.
+        -- intros v Hv. rewrite vertices_app. apply in_or_app. cbn [cv] in Hv. rewrite Ec in Hv.
+           cbn [app] in Hv. destruct Hv as [<- | Hv].
+           ++ left. apply last_end_in_vertices. rewrite L1, El. reflexivity.
+           ++ right. apply V2. exact Hv.
+      * apply Hkeep; [exact Hs|]. intros v Hv. cbn [cv] in Hv. rewrite Ec in Hv. exact Hv.
+    + apply Hkeep; [exact Hs|]. intros v Hv. cbn [cv] in Hv. exact Hv.
+Qed.
+
+Lemma body_segs_start : forall body last s r, body_segs last body = s :: r -> seg_start s = last.
+Proof.
+  induction body as [|el body IH]; intros last s r E; [discriminate|].
+  destruct el as [p|p|p1 p2|p1 p2 p3|]; cbn [body_segs] in E.
+  - eapply IH; eauto.
+  - destruct (pt_eq last p); [eapply IH; eauto|]. inversion E; reflexivity.
+  - destruct (pt_eq last p1 && pt_eq last p2)%bool; [eapply IH; eauto|]. inversion E; reflexivity.
+  - destruct (pt_eq last p1 && pt_eq last p2 && pt_eq last p3)%bool; [eapply IH; eauto|]. inversion E; reflexivity.
+  - eapply IH; eauto.
+Qed.
+
+Lemma sub_out_shape s : fitter_chain -> sub_segs s <> [] ->
+  exists els,
+    sub_out s = MoveTo (sp_start s) :: els ++ closing (sp_closed s) /\
+    els <> [] /\ forallb (@is_draw T) els = true /\
+    last_end els = segs_end (sub_segs s) /\
+    incl (corner_vertices corner (sub_segs s)) (vertices els).
+Proof.
+  intros Hf Hne. unfold sub_out.
+  destruct (spec_segs [] true [] (sub_segs s)) as [[R nm] cur] eqn:E.
+  destruct (sub_segs s) as [|a r] eqn:Es; [congruence|].
+  destruct (spec_out_shape Hf (a :: r) true [] a) with (R := R) (nm' := nm) (cur' := cur) as (els & Eq & N & D & L & V);
+    [discriminate|exact E|].
+  exists els. cbn [app hd] in Eq, L. rewrite app_assoc, Eq. cbn [app].
+  unfold sub_segs in Es. rewrite (body_segs_start _ _ Es).
+  split; [reflexivity|]. split; [exact N|]. split; [exact D|]. split.
+  - rewrite L. unfold segs_end, last_seg_of. destruct (rev (a :: r)); reflexivity.
+  - intros v Hv. apply V. change (last_seg_of []) with (@None (PathSeg T)). rewrite cv_none. exact Hv.
+Qed.
+
+(** simplify_structure *)
+Lemma simplify_structure sps :
+  fitter_chain -> Forall sub_ok sps -> Forall (fun s => sub_segs s <> []) sps ->
+  exists outs,
+    simplify_bezpath fitter thresh (flat_map (@sub_els T) sps) = Some (concat outs) /\
+    Forall2 (fun s out => exists els,
+               out = MoveTo (sp_start s) :: els ++ closing (sp_closed s) /\
+               els <> [] /\ forallb (@is_draw T) els = true /\
+               last_end els = segs_end (sub_segs s) /\
+               incl (corner_vertices corner (sub_segs s)) (vertices els)) sps outs.
+Proof.
+  intros Hf Hok Hne. exists (map sub_out sps). split.
+  - rewrite simplify_spec by exact Hok. rewrite flat_map_concat_map. reflexivity.
+  - clear Hok. induction Hne as [|s sps Hs _ IH]; cbn; constructor; auto. apply sub_out_shape; assumption.
 Qed.
 
 End SimplifyGeneric.
+
+(* ===================================================================================== *)
+(** * Part 3: the real instance *)
+From Coquelicot Require Import Coquelicot.
+From KV Require Import Affine C06_proofs.
+Local Open Scope R_scope.
+
+Ltac fit_unfold :=
+  cbv [co_new co_eval co_eval_offset co_cusp_sign co_eval_deriv co_c co_q co_d co_c0 co_c1 co_c2
+       moment_integrals lit_0_05 lit_0_1
+       cubic_deriv cubic_eval quad_eval quad_deriv line_eval cubic_signed_area
+       pt_lerp v_lerp pt_add_v pt_sub_v pt_sub v_add v_sub s_scale_v v_scale v_neg v_div
+       v_dot v_cross v_hypot2 v_hypot pt_distance_squared pt_distance
+       to_point to_vec2 two_thirds one_third one_sixth one_twentieth fquarter
+       aff_apply aff_mul aff_translate aff_rotate aff_scale aa ab ac ad ae af
+       pdist2 px py vx vy l0 l1 q0 q1 q2 c0 c1 c2 c3 fst snd] in *;
+  rs_unfold; cbv [Q2R Qnum Qden] in *.
+
+Section FitReal.
+Variable spt : R -> R -> Sample R.
+Variable spd : R -> Point R.
+Variable bc : R -> R -> option R.
+Variable fc : R -> R -> option (CubicBez R * R).
+Variable acc : R.
+
+(** break_cusp answers inside the range it was given (the trait's contract) *)
+Definition cusp_in_range : Prop := forall s e t, bc s e = Some t -> s <= t <= e.
+
+Lemma half_mid s e : @fmul R RS fhalf (@fadd R RS s e) = (s + e) / 2.
+Proof. rs_unfold. rewrite Q2R_half. lra. Qed.
+
+(** in exact arithmetic the midpoint collapses onto an end point only for an empty range *)
+Lemma fit_midpoint_collapse_real s e :
+  (@feqb R RS (@fmul R RS fhalf (@fadd R RS s e)) s || @feqb R RS (@fmul R RS fhalf (@fadd R RS s e)) e)%bool = true <-> s = e.
+Proof.
+  rewrite half_mid. change (@feqb R RS) with Reqb. split.
+  - intros E. apply orb_true_iff in E. destruct E as [E|E]; apply Reqb_true in E; lra.
+  - intros ->. apply orb_true_iff. left. apply Reqb_true. lra.
+Qed.
+
+Lemma fit_tree_positive : cusp_in_range -> forall fuel s e tr, s < e ->
+  fit_tree spt spd bc fc acc fuel s e = Some tr ->
+  List.Forall (fun r => fst r < snd r) (map (@leaf_range R) (tree_leaves tr)).
+Proof.
+  intros Hc. induction fuel as [|k IH]; intros s e tr Hse; [discriminate|].
+  cbn [fit_tree].
+  match goal with |- context [if ?c then try_fit_line _ _ _ _ _ _ else None] =>
+    destruct (if c then try_fit_line spd acc s e (s_p (spt s f1)) (s_p (spt e (fneg f1))) else None) as [[c' err]|] end.
+  { intros E; inversion E; subst; cbn. constructor; [exact Hse|constructor]. }
+  assert (Hcont : forall t, s <= t <= e ->
+    (if (feqb t s || feqb t e)%bool
+     then Some (FLeaf 3 s e (line_cubic (s_p (spt s f1)) (s_p (spt e (fneg f1)))))
+     else match fit_tree spt spd bc fc acc k s t with
+          | Some l => match fit_tree spt spd bc fc acc k t e with
+                      | Some r => Some (FNode s t e l r)
+                      | None => None
+                      end
+          | None => None
+          end) = Some tr ->
+    List.Forall (fun r => fst r < snd r) (map (@leaf_range R) (tree_leaves tr))).
+  { intros t Ht. destruct (feqb t s || feqb t e)%bool eqn:Et.
+    - intros E; inversion E; subst; cbn. constructor; [exact Hse|constructor].
+    - apply orb_false_iff in Et. destruct Et as [E1 E2].
+      change (@feqb R RS) with Reqb in E1, E2. apply Reqb_false in E1, E2.
+      destruct (fit_tree spt spd bc fc acc k s t) as [l|] eqn:F1; [|discriminate].
+      destruct (fit_tree spt spd bc fc acc k t e) as [r|] eqn:F2; [|discriminate].
+      intros E; inversion E; subst; cbn [tree_leaves]. rewrite map_app. apply Forall_app. split.
+      + eapply IH; [|exact F1]. lra.
+      + eapply IH; [|exact F2]. lra. }
+  destruct (bc s e) as [t|] eqn:Eb.
+  - apply Hcont. apply Hc; exact Eb.
+  - destruct (fc s e) as [[c' err]|].
+    + intros E; inversion E; subst; cbn. constructor; [exact Hse|constructor].
+    + apply Hcont. rewrite half_mid. lra.
+Qed.
+
+Lemma chain_cover : forall (rs : list (R * R)) a b, chain a rs b ->
+  forall t, a <= t < b -> exists r, In r rs /\ fst r <= t < snd r.
+Proof.
+  induction rs as [|[x y] rs IH]; intros a b C t Ht; cbn in C.
+  - subst. lra.
+  - destruct C as [-> C]. destruct (Rlt_le_dec t y) as [Hy|Hy].
+    + exists (a, y). split; [left; reflexivity|]. cbn; lra.
+    + destruct (IH y b C t) as (r & Hr & Hin); [lra|]. exists r. split; [right; exact Hr|exact Hin].
+Qed.
+
+Lemma chain_ordered : forall (rs : list (R * R)) a b, chain a rs b ->
+  List.Forall (fun r => fst r < snd r) rs ->
+  a <= b /\ List.Forall (fun r => a <= fst r /\ snd r <= b) rs /\
+  ForallOrdPairs (fun r1 r2 => snd r1 <= fst r2) rs.
+Proof.
+  induction rs as [|[x y] rs IH]; intros a b C P; cbn in C.
+  - subst. split; [lra|]. split; constructor.
+  - destruct C as [-> C]. inversion P; subst. cbn in H1.
+    destruct (IH y b C H2) as (Hyb & Hin & Hord).
+    split; [lra|]. split.
+    + constructor; [cbn; lra|]. eapply Forall_impl; [|exact Hin]. cbn. intros r [? ?]; lra.
+    + constructor; [|exact Hord]. eapply Forall_impl; [|exact Hin]. cbn. intros r [? ?]; lra.
+Qed.
+
+(** fit_rec_ranges_tile: the leaf ranges tile [0,1] in order *)
+Lemma fit_rec_ranges_tile fuel out :
+  cusp_in_range ->
+  fit_to_bezpath spt spd bc fc acc fuel = Some out ->
+  exists ranges : list (R * R),
+    length out = S (length ranges) /\
+    chain 0 ranges 1 /\
+    List.Forall (fun r => fst r < snd r) ranges /\
+    ForallOrdPairs (fun r1 r2 => snd r1 <= fst r2) ranges /\
+    (forall t, 0 <= t < 1 -> exists r, In r ranges /\ fst r <= t < snd r).
+Proof.
+  intros Hc. unfold fit_to_bezpath. rewrite fit_rec_tree.
+  destruct (fit_tree spt spd bc fc acc fuel f0 f1) as [tr|] eqn:E; [|discriminate].
+  intros E'; inversion E'; subst; clear E'.
+  destruct (fit_tree_leaves _ _ _ _ _ _ _ _ E) as (N & C & W).
+  assert (P := fit_tree_positive Hc fuel (s:=f0) (e:=f1)). specialize (P tr).
+  change (@f0 R RS) with 0 in *. change (@f1 R RS) with 1 in *.
+  specialize (P ltac:(lra) E).
+  exists (map (@leaf_range R) (tree_leaves tr)).
+  split.
+  { destruct (tree_leaves tr) as [|l ls]; [congruence|]. rewrite emit_empty. cbn. rewrite !map_length. reflexivity. }
+  split; [exact C|]. split; [exact P|].
+  split; [apply (@chain_ordered _ _ _ C P)|]. apply (@chain_cover _ _ _ C).
+Qed.
+
+End FitReal.
+
+(** ** CubicOffset: exact algebra of the offset sample *)
+Lemma offset_vec X Y d : X * X + Y * Y <> 0 ->
+  let h := sqrt (X * X + Y * Y) in
+  (- Y * d * (1 / h)) * (- Y * d * (1 / h)) + (X * d * (1 / h)) * (X * d * (1 / h)) = d * d /\
+  (- Y * d * (1 / h)) * X + (X * d * (1 / h)) * Y = 0 /\ h <> 0.
+Proof.
+  intros Hn h.
+  assert (Hp : 0 < X * X + Y * Y) by nra.
+  assert (Hh : h * h = X * X + Y * Y) by (apply sqrt_sqrt; lra).
+  assert (Hh0 : h <> 0) by (intros E; rewrite E in Hh; lra).
+  split; [|split; [field; exact Hh0|exact Hh0]].
+  replace (- Y * d * (1 / h) * (- Y * d * (1 / h)) + X * d * (1 / h) * (X * d * (1 / h)))
+    with (d * d * ((X * X + Y * Y) / (h * h))) by (field; exact Hh0).
+  rewrite Hh. field. lra.
+Qed.
+
+(** offset_sample_distance: wherever the source derivative does not vanish, the sample of the offset
+    curve is at distance exactly |d| from the source point of the same parameter, along the normal. *)
+Lemma offset_sample_distance (c : CubicBez R) (d t : R) :
+  let q := quad_eval (cubic_deriv c) t in
+  px q * px q + py q * py q <> 0 ->
+  let o := co_new c d in
+  pdist2 (co_eval o t) (cubic_eval c t) = d * d /\
+  (px (co_eval o t) - px (cubic_eval c t)) * px q + (py (co_eval o t) - py (cubic_eval c t)) * py q = 0 /\
+  sqrt (pdist2 (co_eval o t) (cubic_eval c t)) = Rabs d.
+Proof.
+  intros q Hq o.
+  assert (G : pdist2 (co_eval o t) (cubic_eval c t) = d * d /\
+              (px (co_eval o t) - px (cubic_eval c t)) * px q + (py (co_eval o t) - py (cubic_eval c t)) * py q = 0).
+  { subst o. unfold q in *. clear q.
+    cbv [co_eval co_eval_offset co_new co_q co_c co_d pt_add_v v_div v_scale to_vec2 v_hypot vx vy px py pdist2] in *.
+    destruct (quad_eval (cubic_deriv c) t) as [X Y]. destruct (cubic_eval c t) as [Px Py].
+    rs_unfold. destruct (offset_vec d Hq) as (E1 & E2 & _). cbv zeta in E1, E2.
+    split.
+    - rewrite <- E1. ring.
+    - rewrite <- E2. ring. }
+  destruct G as [G1 G2]. split; [exact G1|]. split; [exact G2|].
+  rewrite G1. apply sqrt_Rsqr_abs.
+Qed.
+
+(** the cusp function is 1 - d * curvature: positive exactly when the offset stays inside the radius of curvature *)
+Lemma offset_cusp_sign_curvature (c : CubicBez R) (d t : R) :
+  let q := quad_eval (cubic_deriv c) t in          (* c'(t) *)
+  let a := line_eval (quad_deriv (cubic_deriv c)) t in   (* c''(t) *)
+  let ds2 := px q * px q + py q * py q in
+  co_cusp_sign (co_new c d) t = 1 - d * ((px q * py a - py q * px a) / (ds2 * sqrt ds2)).
+Proof.
+  destruct c as [[x0 y0] [x1 y1] [x2 y2] [x3 y3]]. fit_unfold.
+  set (D := sqrt _). unfold Rdiv. ring.
+Qed.
+
+(** the derivative of the unit-normal term, for any differentiable (X, Y) that does not vanish at t *)
+Lemma offset_norm_derive (X Y : R -> R) (X' Y' d t : R) :
+  is_derive X t X' -> is_derive Y t Y' -> X t * X t + Y t * Y t <> 0 ->
+  is_derive (fun u => - Y u * d * (1 / sqrt (X u * X u + Y u * Y u))) t
+    (X t * (d * (Y t * X' - X t * Y') / ((X t * X t + Y t * Y t) * sqrt (X t * X t + Y t * Y t)))) /\
+  is_derive (fun u => X u * d * (1 / sqrt (X u * X u + Y u * Y u))) t
+    (Y t * (d * (Y t * X' - X t * Y') / ((X t * X t + Y t * Y t) * sqrt (X t * X t + Y t * Y t)))).
+Proof.
+  intros HX HY Hn.
+  assert (Hp : 0 < X t * X t + Y t * Y t) by nra.
+  assert (Hs : sqrt (X t * X t + Y t * Y t) <> 0).
+  { intros E. apply sqrt_eq_0 in E; lra. }
+  assert (EX : ex_derive X t) by (eexists; exact HX).
+  assert (EY : ex_derive Y t) by (eexists; exact HY).
+  assert (Hc : ex_derive (fun x => Y x) t /\ ex_derive (fun x => X x) t) by (split; assumption).
+  split; auto_derive.
+  - repeat split; try tauto; auto.
+  - replace (Derive (fun x : R => X x) t) with X' by (symmetry; apply is_derive_unique; exact HX).
+    replace (Derive (fun x : R => Y x) t) with Y' by (symmetry; apply is_derive_unique; exact HY).
+    set (x := X t) in *; set (y := Y t) in *; set (h := sqrt _) in *.
+    assert (Hh : h * h = x * x + y * y) by (apply sqrt_sqrt; lra).
+    rewrite <- Hh. apply Rminus_diag_uniq.
+    match goal with |- ?L = 0 => replace L with (d * Y' * (x * x + y * y - h * h) / (h * h * h)) by (field; auto) end.
+    rewrite Hh. unfold Rdiv. ring.
+  - repeat split; try tauto; auto.
+  - replace (Derive (fun x : R => X x) t) with X' by (symmetry; apply is_derive_unique; exact HX).
+    replace (Derive (fun x : R => Y x) t) with Y' by (symmetry; apply is_derive_unique; exact HY).
+    set (x := X t) in *; set (y := Y t) in *; set (h := sqrt _) in *.
+    assert (Hh : h * h = x * x + y * y) by (apply sqrt_sqrt; lra).
+    rewrite <- Hh. apply Rminus_diag_uniq.
+    match goal with |- ?L = 0 => replace L with (- d * X' * (x * x + y * y - h * h) / (h * h * h)) by (field; auto) end.
+    rewrite Hh. unfold Rdiv. ring.
+Qed.
+
+(** [eval_deriv] is the derivative of [eval] wherever the source derivative does not vanish *)
+Lemma offset_eval_deriv_is_derivative (c : CubicBez R) (d t : R) :
+  let q := quad_eval (cubic_deriv c) t in
+  px q * px q + py q * py q <> 0 ->
+  let o := co_new c d in
+  is_derive (fun u => px (co_eval o u)) t (vx (co_eval_deriv o t)) /\
+  is_derive (fun u => py (co_eval o u)) t (vy (co_eval_deriv o t)).
+Proof.
+  intros q Hq o.
+  set (X := fun u => px (quad_eval (cubic_deriv c) u)).
+  set (Y := fun u => py (quad_eval (cubic_deriv c) u)).
+  set (X' := px (line_eval (quad_deriv (cubic_deriv c)) t)).
+  set (Y' := py (line_eval (quad_deriv (cubic_deriv c)) t)).
+  destruct (quad_deriv_is_derivative (cubic_deriv c) t) as [HX HY].
+  destruct (cubic_deriv_is_derivative c t) as [HCx HCy].
+  destruct (@offset_norm_derive X Y X' Y' d t HX HY Hq) as [Nx Ny].
+  pose proof (offset_cusp_sign_curvature c d t) as Hk. cbv zeta in Hk.
+  fold X' Y' in Hk. change (px (quad_eval (cubic_deriv c) t)) with (X t) in Hk.
+  change (py (quad_eval (cubic_deriv c) t)) with (Y t) in Hk.
+  split.
+  - apply is_derive_ext with (f := fun u => px (cubic_eval c u) + - Y u * d * (1 / sqrt (X u * X u + Y u * Y u))).
+    { intros u. reflexivity. }
+    replace (vx (co_eval_deriv o t)) with
+      (X t + X t * (d * (Y t * X' - X t * Y') / ((X t * X t + Y t * Y t) * sqrt (X t * X t + Y t * Y t)))).
+    { apply (is_derive_plus (fun u => px (cubic_eval c u)) _ t _ _ HCx Nx). }
+    subst o. cbv [co_eval_deriv s_scale_v v_scale vx vy to_vec2]. rewrite Hk. cbv [co_q co_new].
+    change (@fmul R RS) with Rmult. unfold X, Y. unfold Rdiv. ring.
+  - apply is_derive_ext with (f := fun u => py (cubic_eval c u) + X u * d * (1 / sqrt (X u * X u + Y u * Y u))).
+    { intros u. reflexivity. }
+    replace (vy (co_eval_deriv o t)) with
+      (Y t + Y t * (d * (Y t * X' - X t * Y') / ((X t * X t + Y t * Y t) * sqrt (X t * X t + Y t * Y t)))).
+    { apply (is_derive_plus (fun u => py (cubic_eval c u)) _ t _ _ HCy Ny). }
+    subst o. cbv [co_eval_deriv s_scale_v v_scale vx vy to_vec2]. rewrite Hk. cbv [co_q co_new].
+    change (@fmul R RS) with Rmult. unfold X, Y. unfold Rdiv. ring.
+Qed.
+
+(** ** moment integrals: polynomial integrals over [0,1] *)
+Lemma peval_padd : forall p q t, peval (padd p q) t = peval p t + peval q t.
+Proof.
+  induction p as [|a p IH]; intros [|b q] t; cbn; try lra. rewrite IH. ring.
+Qed.
+Lemma peval_pscale k p t : peval (pscale k p) t = k * peval p t.
+Proof. induction p as [|a p IH]; cbn; [ring|]. unfold pscale in IH. rewrite IH. ring. Qed.
+Lemma peval_pmul : forall p q t, peval (pmul p q) t = peval p t * peval q t.
+Proof.
+  induction p as [|a p IH]; intros q t; cbn [pmul peval]; [ring|].
+  rewrite peval_padd, peval_pscale. cbn [peval]. rewrite IH. ring.
+Qed.
+
+Lemma is_RInt_monomial (a : R) (k : nat) : is_RInt (fun t => a * t ^ k) 0 1 (a / INR (S k)).
+Proof.
+  assert (Hk : INR (S k) <> 0) by (apply not_0_INR; discriminate).
+  evar_last.
+  - apply (is_RInt_derive (fun t => a * t ^ (S k) / INR (S k)) (fun t => a * t ^ k)).
+    + intros x _. auto_derive; [exact I|].
+      change (match k with 0%nat => 1 | S _ => INR k + 1 end) with (INR (S k)). field. exact Hk.
+    + intros x _. apply (ex_derive_continuous (fun t => a * t ^ k)). auto_derive. exact I.
+  - change (a * 1 ^ S k / INR (S k) - a * 0 ^ S k / INR (S k) = a / INR (S k)).
+    rewrite pow1. rewrite (pow_i (S k)) by lia. unfold Rdiv. ring.
+Qed.
+
+(** integral over [0,1] of t^k * p(t) *)
+Lemma is_RInt_peval_from : forall p k, is_RInt (fun t => t ^ k * peval p t) 0 1 (pint_from k p).
+Proof.
+  induction p as [|a p IH]; intros k; cbn [peval pint_from].
+  - apply (is_RInt_ext (fun _ => 0)); [intros x _; symmetry; apply Rmult_0_r|].
+    evar_last; [apply (@is_RInt_const R_NormedModule)|]. unfold scal; cbn. unfold mult; cbn. ring.
+  - apply (is_RInt_ext (fun t => a * t ^ k + t ^ (S k) * peval p t)).
+    { intros x _. change (a * x ^ k + x ^ S k * peval p x = x ^ k * (a + x * peval p x)). cbn [pow]. ring. }
+    apply (@is_RInt_plus R_NormedModule); [apply is_RInt_monomial|apply IH].
+Qed.
+
+Lemma is_RInt_peval p : is_RInt (peval p) 0 1 (pint p).
+Proof.
+  apply (is_RInt_ext (fun t => t ^ 0 * peval p t)).
+  { intros x _. change (x ^ 0 * peval p x = peval p x). cbn [pow]. ring. }
+  apply is_RInt_peval_from.
+Qed.
+
+Lemma powerRZ_2 x : powerRZ x 2 = x * x.
+Proof. unfold powerRZ. change (Pos.to_nat 2) with 2%nat. cbn [pow]. ring. Qed.
+
+Definition cubic_xpoly (c : CubicBez R) := bez3 (px (c0 c)) (px (c1 c)) (px (c2 c)) (px (c3 c)).
+Definition cubic_ypoly (c : CubicBez R) := bez3 (py (c0 c)) (py (c1 c)) (py (c2 c)) (py (c3 c)).
+
+Lemma moment_integrals_green (c : CubicBez R) :
+  let x := fun t => px (cubic_eval c t) in
+  let y := fun t => py (cubic_eval c t) in
+  let dx := fun t => px (quad_eval (cubic_deriv c) t) in
+  is_RInt (fun t => y t * dx t) 0 1 (fst (fst (moment_integrals c))) /\
+  is_RInt (fun t => x t * y t * dx t) 0 1 (snd (fst (moment_integrals c))) /\
+  is_RInt (fun t => y t * y t * dx t) 0 1 (snd (moment_integrals c)).
+Proof.
+  intros x y dx.
+  set (X := cubic_xpoly c). set (Y := cubic_ypoly c). set (DX := pderiv X).
+  assert (Ex : forall t, x t = peval X t).
+  { intros t. subst x X. destruct c as [[x0 y0] [x1 y1] [x2 y2] [x3 y3]]. unfold cubic_xpoly, bez3. fit_unfold. cbn [peval]. ring. }
+  assert (Ey : forall t, y t = peval Y t).
+  { intros t. subst y Y. destruct c as [[x0 y0] [x1 y1] [x2 y2] [x3 y3]]. unfold cubic_ypoly, bez3. fit_unfold. cbn [peval]. ring. }
+  assert (Ed : forall t, dx t = peval DX t).
+  { intros t. subst dx DX X. destruct c as [[x0 y0] [x1 y1] [x2 y2] [x3 y3]]. unfold cubic_xpoly, bez3. fit_unfold.
+    cbn [peval pderiv pderiv_from INR]. ring. }
+  split; [|split].
+  - apply (is_RInt_ext (peval (pmul Y DX))).
+    { intros t _. rewrite peval_pmul, <- Ey, <- Ed. reflexivity. }
+    evar_last; [apply is_RInt_peval|].
+    subst X Y DX. destruct c as [[x0 y0] [x1 y1] [x2 y2] [x3 y3]]. unfold cubic_xpoly, cubic_ypoly, bez3.
+    fit_unfold. cbv [pint pint_from pmul padd pscale pderiv pderiv_from map INR]. clear. rewrite ?powerRZ_2. field.
+  - apply (is_RInt_ext (peval (pmul (pmul X Y) DX))).
+    { intros t _. rewrite !peval_pmul, <- Ex, <- Ey, <- Ed. reflexivity. }
+    evar_last; [apply is_RInt_peval|].
+    subst X Y DX. destruct c as [[x0 y0] [x1 y1] [x2 y2] [x3 y3]]. unfold cubic_xpoly, cubic_ypoly, bez3.
+    fit_unfold. cbv [pint pint_from pmul padd pscale pderiv pderiv_from map INR]. clear. rewrite ?powerRZ_2. field.
+  - apply (is_RInt_ext (peval (pmul (pmul Y Y) DX))).
+    { intros t _. rewrite !peval_pmul, <- Ey, <- Ed. reflexivity. }
+    evar_last; [apply is_RInt_peval|].
+    subst X Y DX. destruct c as [[x0 y0] [x1 y1] [x2 y2] [x3 y3]]. unfold cubic_xpoly, cubic_ypoly, bez3.
+    fit_unfold. cbv [pint pint_from pmul padd pscale pderiv pderiv_from map INR]. clear. rewrite ?powerRZ_2. field.
+Qed.
+
+(** the area component against the Green's-theorem area of Curves.v ([cubic_signed_area] is
+    1/2 * integral of (x dy - y dx); integrating d(xy) gives the relation) *)
+Lemma moment_area_vs_signed_area (c : CubicBez R) :
+  fst (fst (moment_integrals c)) =
+  (px (c3 c) * py (c3 c) - px (c0 c) * py (c0 c)) / 2 - cubic_signed_area c.
+Proof.
+  destruct c as [[x0 y0] [x1 y1] [x2 y2] [x3 y3]]. fit_unfold. field.
+Qed.
+
+(** ** the candidate cubic of fit_to_cubic keeps the end points (exact arithmetic):
+    [aff = translate(start) * rotate(th) * scale(chord)] maps (0,0) to start and (1,0) to end
+    whenever (chord cos th, chord sin th) is the chord vector *)
+Lemma fit_to_cubic_affine_endpoints (start : Point R) (dx dy th chord : R) :
+  chord * cos th = dx -> chord * sin th = dy ->
+  let aff := aff_mul (aff_mul (aff_translate (to_vec2 start)) (aff_rotate th)) (aff_scale chord) in
+  aff_apply aff (mkPoint 0 0) = start /\
+  aff_apply aff (mkPoint 1 0) = mkPoint (px start + dx) (py start + dy).
+Proof.
+  intros Hx Hy. destruct start as [sx sy]. fit_unfold. split; f_equal; try ring.
+  - rewrite <- Hx. ring.
+  - rewrite <- Hy. ring.
+Qed.
+
+(** ** what the structure theorems buy for the accuracy claim: it reduces to the per-leaf claims *)
+Section FitAccuracy.
+Variable spt : R -> R -> Sample R.
+Variable spd : R -> Point R.
+Variable bc : R -> R -> option R.
+Variable fc : R -> R -> option (CubicBez R * R).
+Variable acc : R.
+
+Definition src (t : R) : Point R := s_p (spt t 1).
+
+(** the trait's contract: cusps are reported strictly inside the range *)
+Definition cusp_interior : Prop := forall s e t, bc s e = Some t -> s < t < e.
+(** the source is continuous where it is split (both one-sided samples give the same point) *)
+Definition src_continuous : Prop := forall t, s_p (spt t 1) = s_p (spt t (-1)).
+
+(** THE UNPROVED PART. The fitter accepts a cubic when an approximate Fréchet estimate from 20
+    ray casts is below the accuracy; that an accepted cubic really is within 2*accuracy of the
+    source (both ways) is not a theorem here. *)
+Definition accepted_within_accuracy : Prop :=
+  forall s e c err, s < e -> fc s e = Some (c, err) -> two_sided src s e (cubic_eval c) (2 * acc).
+(** try_fit_line looks at 7 interior samples only *)
+Definition line_within_accuracy : Prop :=
+  forall s e, s < e -> line_attempt spt spd acc s e <> None ->
+    two_sided src s e (cubic_eval (line_cubic (sp spt s) (ep spt e))) (2 * acc).
+
+Lemma chain_cover_closed : forall (rs : list (R * R)) a b, rs <> [] -> chain a rs b ->
+  forall t, a <= t <= b -> exists r, In r rs /\ fst r <= t <= snd r.
+Proof.
+  induction rs as [|[x y] rs IH]; intros a b N C t Ht; [congruence|]. cbn in C. destruct C as [-> C].
+  destruct (Rle_lt_dec t y) as [Hy|Hy].
+  - exists (a, y). split; [left; reflexivity|]. cbn; lra.
+  - destruct rs as [|r' rs'].
+    + cbn in C. subst. lra.
+    + destruct (IH y b ltac:(discriminate) C t ltac:(lra)) as (r & Hr & Hin).
+      exists r. split; [right; exact Hr|exact Hin].
+Qed.
+
+Lemma leaf_two_sided :
+  cusp_interior -> accepted_within_accuracy -> line_within_accuracy ->
+  forall l, leaf_wf spt spd bc fc acc l -> fst (leaf_range l) < snd (leaf_range l) ->
+  two_sided src (fst (leaf_range l)) (snd (leaf_range l)) (cubic_eval (leaf_cubic l)) (2 * acc).
+Proof.
+  intros Hc Ha Hl l W Hlt.
+  destruct W as [(_ & Ec & Hne) | [(_ & _ & _ & err & Hf) | (_ & _ & _ & t & Et & Ht)]].
+  - rewrite Ec. apply Hl; assumption.
+  - eapply Ha; eauto.
+  - exfalso. apply orb_true_iff in Et. change (@feqb R RS) with Reqb in Et.
+    destruct Ht as [Hb | (_ & _ & ->)].
+    + apply Hc in Hb. destruct Et as [E|E]; apply Reqb_true in E; lra.
+    + rewrite half_mid in Et. destruct Et as [E|E]; apply Reqb_true in E; lra.
+Qed.
+
+(** C18_full for fit_to_bezpath: the fitted path consists of the leaf cubics and is within
+    2*accuracy of the source in Hausdorff distance *)
+Definition fit_within_accuracy : Prop :=
+  forall fuel out, fit_to_bezpath spt spd bc fc acc fuel = Some out ->
+  exists cubics, segments out = Some (map (@SegCubic R) cubics) /\ hausdorff_path src cubics (2 * acc).
+
+Lemma fit_within_accuracy_partial :
+  cusp_interior -> src_continuous -> oracle_keeps_endpoints spt fc ->
+  accepted_within_accuracy -> line_within_accuracy ->
+  fit_within_accuracy.
+Proof.
+  intros Hc Hs Ho Ha Hl fuel out E.
+  assert (Hcr : cusp_in_range bc) by (intros s e t Hb; apply Hc in Hb; lra).
+  unfold fit_to_bezpath in E. rewrite fit_rec_tree in E.
+  destruct (fit_tree spt spd bc fc acc fuel f0 f1) as [tr|] eqn:Et; [|discriminate].
+  inversion E; subst; clear E.
+  destruct (fit_tree_leaves _ _ _ _ _ _ _ _ Et) as (N & C & W).
+  assert (P := @fit_tree_positive spt spd bc fc acc Hcr fuel f0 f1 tr).
+  change (@f0 R RS) with 0 in *. change (@f1 R RS) with 1 in *.
+  specialize (P ltac:(lra) Et).
+  destruct (@chain_ordered _ _ _ C P) as (_ & Hin & _).
+  exists (map (@leaf_cubic R) (tree_leaves tr)). split.
+  { destruct (tree_leaves tr) as [|l ls] eqn:El; [congruence|].
+    rewrite (@emit_segments R RS spt spd bc fc acc l ls 0 1 Ho Hs W C). rewrite map_map. reflexivity. }
+  assert (TS : forall l, In l (tree_leaves tr) ->
+            two_sided src (fst (leaf_range l)) (snd (leaf_range l)) (cubic_eval (leaf_cubic l)) (2 * acc) /\
+            0 <= fst (leaf_range l) /\ snd (leaf_range l) <= 1).
+  { intros l Hl0. split.
+    - apply leaf_two_sided; auto.
+      + rewrite List.Forall_forall in W. apply W; exact Hl0.
+      + rewrite List.Forall_forall in P. apply (P (leaf_range l)). apply in_map; exact Hl0.
+    - rewrite List.Forall_forall in Hin. apply (Hin (leaf_range l)). apply in_map; exact Hl0. }
+  split.
+  - intros t Ht.
+    destruct (@chain_cover_closed (map (@leaf_range R) (tree_leaves tr)) 0 1) with (t := t) as (r & Hr & Hrt); auto.
+    { destruct (tree_leaves tr); [congruence|discriminate]. }
+    apply in_map_iff in Hr. destruct Hr as (l & <- & Hl0).
+    destruct (TS l Hl0) as ((T1 & _) & _). destruct (T1 t Hrt) as (u & Hu & Hd).
+    exists (leaf_cubic l). split; [apply in_map; exact Hl0|]. exists u; split; assumption.
+  - intros c Hcin u Hu. apply in_map_iff in Hcin. destruct Hcin as (l & <- & Hl0).
+    destruct (TS l Hl0) as ((_ & T2) & H0 & H1). destruct (T2 u Hu) as (t & Ht & Hd).
+    exists t. split; [lra|exact Hd].
+Qed.
+
+End FitAccuracy.
+
+(** ** SimplifyBezPath as a source: its end samples are the path's end points (real instance) *)
+Lemma sbp_build_length : forall (segs : list (PathSeg R)) acc0, length (sbp_build acc0 segs) = length segs.
+Proof.
+  induction segs as [|s r IH]; intros [[a x] y]; cbn [sbp_build]; [reflexivity|].
+  destruct (moment_integrals (seg_to_cubic s)) as [[ai xi] yi]. cbn. rewrite IH. reflexivity.
+Qed.
+
+Lemma sbp_build_nth : forall (segs : list (PathSeg R)) acc0 i sg,
+  nth_error segs i = Some sg ->
+  exists m, nth_error (sbp_build acc0 segs) i = Some (seg_to_cubic sg, m).
+Proof.
+  induction segs as [|s r IH]; intros [[a x] y] i sg Hn; [destruct i; discriminate|].
+  cbn [sbp_build]. destruct (moment_integrals (seg_to_cubic s)) as [[ai xi] yi].
+  destruct i as [|i]; cbn in *.
+  - inversion Hn; subst. eexists; reflexivity.
+  - eapply IH; eauto.
+Qed.
+
+Lemma sbp_endpoints (segs : list (PathSeg R)) (s0 s1 : PathSeg R) :
+  nth_error segs 0 = Some s0 -> nth_error segs (length segs - 1) = Some s1 ->
+  (exists tan, sbp_sample_pt_tangent (sbp_new segs) 0 = Some (mkSample (seg_start s0) tan)) /\
+  (exists tan, sbp_sample_pt_tangent (sbp_new segs) 1 = Some (mkSample (seg_end s1) tan)).
+Proof.
+  intros H0 H1.
+  assert (Hlen : length (sbp_new segs) = length segs) by apply sbp_build_length.
+  assert (Hpos : (0 < length segs)%nat) by (destruct segs; [discriminate|cbn; lia]).
+  destruct (sbp_build_nth segs (f0, f0, f0) 0 H0) as (m0 & E0).
+  destruct (sbp_build_nth segs (f0, f0, f0) _ H1) as (m1 & E1).
+  fold (sbp_new segs) in E0, E1.
+  split.
+  - unfold sbp_sample_pt_tangent, sbp_locate, sbp_scale. rewrite Hlen.
+    change (@fmul R RS 0 (@fofZ R RS (Z.of_nat (length segs)))) with (0 * IZR (Z.of_nat (length segs))).
+    rewrite Rmult_0_l. change (@ffloor R RS 0) with (IZR (Raux.Zfloor 0)).
+    replace (Raux.Zfloor 0) with 0%Z by (symmetry; apply (Raux.Zfloor_IZR 0)).
+    change (@fto_usize R RS 0) with (Z.max 0 (Raux.Ztrunc 0)).
+    replace (Raux.Ztrunc 0) with 0%Z by (symmetry; apply (Raux.Ztrunc_IZR 0)).
+    change (Z.max 0 0) with 0%Z. destruct (0 =? Z.of_nat (length segs))%Z eqn:En; [apply Z.eqb_eq in En; lia|].
+    unfold sbp_nth. cbn [Z.ltb Z.compare Z.to_nat]. rewrite E0.
+    change (@fsub R RS 0 0) with (0 - 0). replace (0 - 0) with 0 by ring.
+    destruct (seg_to_cubic_endpoints s0) as [<- _]. eexists. f_equal. f_equal.
+    destruct (seg_to_cubic s0) as [[x0 y0] [x1 y1] [x2 y2] [x3 y3]]. fit_unfold. f_equal; ring.
+  - unfold sbp_sample_pt_tangent, sbp_locate, sbp_scale. rewrite Hlen.
+    change (@fmul R RS 1 (@fofZ R RS (Z.of_nat (length segs)))) with (1 * IZR (Z.of_nat (length segs))).
+    rewrite Rmult_1_l. change (@ffloor R RS (IZR (Z.of_nat (length segs)))) with (IZR (Raux.Zfloor (IZR (Z.of_nat (length segs))))).
+    rewrite Raux.Zfloor_IZR.
+    change (@fto_usize R RS (IZR (Z.of_nat (length segs)))) with (Z.max 0 (Raux.Ztrunc (IZR (Z.of_nat (length segs))))).
+    rewrite Raux.Ztrunc_IZR. rewrite Z.max_r by lia. rewrite Z.eqb_refl.
+    unfold sbp_nth. destruct (Z.of_nat (length segs) - 1 <? 0)%Z eqn:En; [apply Z.ltb_lt in En; lia|].
+    replace (Z.to_nat (Z.of_nat (length segs) - 1)) with (length segs - 1)%nat by lia. rewrite E1.
+    destruct (seg_to_cubic_endpoints s1) as [_ <-]. eexists. f_equal. f_equal.
+    destruct (seg_to_cubic s1) as [[x0 y0] [x1 y1] [x2 y2] [x3 y3]]. fit_unfold. f_equal; ring.
+Qed.
